@@ -9,7 +9,7 @@ NEEDS_CLI = True
 RULE = ("ops td.hash <document> -> (domain separator, message hash, digest), td.encode_type <types> <name> (hook), td.kind <type string> (hook): "
         "random type graphs (1..6 structs, members in random order, shared and repeated dependencies, self/mutual recursion through arrays, "
         "multi-dimensional fixed/dynamic arrays, every atomic type; primary type = first struct, any other struct, or EIP712Domain itself with a message of its own; EIP712Domain as a member type), values generated type-directed so documents are accepted; every permutation of "
-        "member order for dependency-bearing structs of <= 4 members; all atomic type strings; the three repo fixtures; "
+        "member order for dependency-bearing structs of <= 4 members; all atomic type strings; the three repo fixtures; equivalent JSON spellings of a sample (white space, \\uXXXX escapes in keys, type strings, values); "
         "a random sample of the cases is re-run through every sub-command that reaches the same code (vlib/routes.py); non-trivial = distinct document whose primary type has >= 1 struct dependency; judge = executable EIP-712 spec (Spec.Eip712)")
 EXHAUSTIVE_SWEEPS = {"quick": ["all 24 member orders of the 4-member dependency witness", "all 100 atomic type strings (td.kind)"],
                      "thorough": ["all member orders of 40 random graphs with <= 4 members", "all 100 atomic type strings (td.kind)"]}
@@ -126,6 +126,12 @@ def gen(rng, tier):
         t = rng.choice(tdgen.ALL_ATOMS + ["A", "Foo"]) + "".join(rng.choice(["[]", "[1]", "[22]", "[0]"]) for _ in range(rng.randint(0, 8)))
         cases.append(Case("td.kind " + hx(t), tags=("kind-arrays",), nontrivial=False))
     cases.append(Case("td.kind " + hx("uint8" + "[]" * 64), tags=("kind-arrays",), nontrivial=False))
+    # equivalent JSON spellings of accepted documents (white space, escapes in keys, type strings and values)
+    from vlib import jsonspell
+    pool = [c for c in cases if c.line.startswith("td.hash ") and c.tags[0] in ("random", "fixture", "perm-witness", "recursive")]
+    for c in rng.sample(pool, min(len(pool), 120 if tier == "quick" else 500)):
+        t = bytes.fromhex(c.line.split(" ")[1]).decode()
+        cases.append(Case("td.hash " + hx(jsonspell.respell(rng, t, p_escape=rng.choice([0.05, 0.3, 1.1]))), tags=("respelled",)))
     from vlib import routes
     cases += routes.add_routes(cases, rng, 60, tier)
     return cases
